@@ -119,6 +119,45 @@ func runC06(r *Report, rng *rand.Rand, thorough bool) {
 					}
 					continue
 				}
+				// present and well-formed (serialised by the OAS table, values free of characters that need escaping): accepted
+				// (objects in the query string are left to C05, where the pinned runtime's deviations on them are recorded)
+				if c.Kind == "styled" && !(c.Loc == "query" && c.Shape == "obj") {
+					forcedClass = "alnum"
+					v := genValue(rng, c)
+					forcedClass = ""
+					for len(v.Atoms) == 1 && strings.HasPrefix(c.Shape, "arr:") { // arrays with at least two elements
+						forcedClass = "alnum"
+						v = genValue(rng, c)
+						forcedClass = ""
+					}
+					plain := true
+					for _, a := range append(append([]string{}, v.Atoms...), func() []string {
+						var l []string
+						for _, m := range v.Obj {
+							l = append(l, m[1])
+						}
+						return l
+					}()...) {
+						for _, ch := range a {
+							if !(ch >= '0' && ch <= '9' || ch >= 'a' && ch <= 'z' || ch >= 'A' && ch <= 'Z' || ch == '-' || ch == '.') {
+								plain = false
+							}
+						}
+					}
+					if plain {
+						single, pairs := tableWire(c, &v)
+						req := mkReq(c, single, true)
+						if c.Loc == "query" {
+							q := url.Values{}
+							for _, pr := range pairs {
+								q.Add(pr[0], pr[1])
+							}
+							req = map[string]any{"method": "GET", "target": "/" + c.Op + "?" + q.Encode()}
+						}
+						add(fw, c, "well-formed", true, req)
+						r.Dist["well_formed_present/"+c.Loc]++
+					}
+				}
 				// missing parameter
 				if c.Loc != "path" {
 					add(fw, c, "missing", !c.Required, mkReq(c, "", false))
@@ -296,6 +335,9 @@ func runC06(r *Report, rng *rand.Rand, thorough bool) {
 		if m.kind == "missing" {
 			state = "Absent"
 		}
+		if m.kind == "well-formed" {
+			state = "Binds"
+		}
 		tr := "[WHandler]"
 		if handlers == 0 {
 			tr = "[WErr 0]"
@@ -306,7 +348,11 @@ func runC06(r *Report, rng *rand.Rand, thorough bool) {
 		if m.wantOK {
 			if handlers != 1 {
 				sig := "wellformed_rejected/" + m.fw + "/" + m.cell.Loc + "/" + m.kind
-				r.Violate(sig, fmt.Sprintf("%s %s: optional parameter omitted, handler calls %d, status %d", m.fw, m.cell.key(), handlers, res.Status), replay)
+				what := "optional parameter omitted"
+				if m.kind == "well-formed" {
+					what = "parameter present and well-formed"
+				}
+				r.Violate(sig, fmt.Sprintf("%s %s: %s, handler calls %d, status %d", m.fw, m.cell.key(), what, handlers, res.Status), replay)
 			}
 			continue
 		}
@@ -335,5 +381,5 @@ func runC06(r *Report, rng *rand.Rand, thorough bool) {
 	}
 	r.Exhaustive = thorough
 	runC06Combine(r, rng, thorough)
-	r.Rule = "function level: CombineOperationParameters on random path-level / operation-level parameter lists vs the model; every operation of the parameter family (one per cell of location x style x explode x shape x required x schema/JSON content) x {required parameter missing, optional parameter missing (must be accepted), wrong type, integer overflow, bad date / date-time / uuid, wrong array element, malformed JSON content (truncated, wrong member type, a complete value followed by more text), wrong label/matrix prefix, duplicated single-valued header, header present with an empty value (non-string types)} x 7 frameworks x {default error path, configured error handler}; a POST operation with required pass-through / JSON / styled and optional query parameters next to a form-encoded body whose fields carry the parameters' names (required parameter only in the body: rejected; complete query with same-named body fields: accepted with the query's values; optional only in the body: absent); oracle: zero handler calls and status 400 / error handler invoked for corrupted requests, exactly one handler call for well-formed ones; non-trivial = a corruption or a missing required parameter"
+	r.Rule = "function level: CombineOperationParameters on random path-level / operation-level parameter lists vs the model; every operation of the parameter family (one per cell of location x style x explode x shape x required x schema/JSON content) x {parameter present and well-formed in the OAS table's serialisation (must be accepted; arrays of two or more elements, objects), required parameter missing, optional parameter missing (must be accepted), wrong type, integer overflow, bad date / date-time / uuid, wrong array element, malformed JSON content (truncated, wrong member type, a complete value followed by more text), wrong label/matrix prefix, duplicated single-valued header, header present with an empty value (non-string types)} x 7 frameworks x {default error path, configured error handler}; a POST operation with required pass-through / JSON / styled and optional query parameters next to a form-encoded body whose fields carry the parameters' names (required parameter only in the body: rejected; complete query with same-named body fields: accepted with the query's values; optional only in the body: absent); oracle: zero handler calls and status 400 / error handler invoked for corrupted requests, exactly one handler call for well-formed ones; non-trivial = a corruption or a missing required parameter"
 }
